@@ -60,6 +60,24 @@ def _keep_newlines(repl: str, old: str) -> str:
     return repl + "\n" * old.count("\n")
 
 
+def _split_field_commas(m):
+    """commas that separate struct fields: bracket depth 0 and outside generic angle brackets"""
+    d = a = 0
+    res = []
+    for i, c in enumerate(m):
+        if c in "([{":
+            d += 1
+        elif c in ")]}":
+            d -= 1
+        elif c == "<":
+            a += 1
+        elif c == ">" and i > 0 and m[i - 1] not in "-=":
+            a = max(0, a - 1)
+        elif c == "," and d == 0 and a == 0:
+            res.append(i)
+    return res
+
+
 class Piece:
     __slots__ = ("text", "origin")
 
@@ -204,6 +222,11 @@ class Extractor:
             elif d.startswith("attr "):
                 fs.attrs.append(d[5:].strip())
                 i += 1
+            elif d == "assume-contract":
+                # signature copied from the repo, body NOT verified here: `{ unimplemented!() }` under external_body
+                fs.attrs.append("#[verifier::external_body]")
+                fs.sig_only = True
+                i += 1
             elif d.startswith("map "):
                 a, b = d[4:].split("=>")
                 fs.maps.append((a.strip(), b.strip()))
@@ -295,7 +318,7 @@ class Extractor:
         self._count(rec, "R7")
         rec["sha256"] = hashlib.sha256(text.encode()).hexdigest()
         self.types.append(rec)
-        self.pieces.append(Piece("#[derive(Clone, Copy, PartialEq, Eq)]\n" if "{" in text and not re.search(r"\(", mtext[mtext.find("{"):]) else "", ("unit", self.unit_path, 0)))
+        self.pieces.append(Piece("#[derive(Clone, Copy, PartialEq, Eq, Structural)]\n" if "{" in text and not re.search(r"\(", mtext[mtext.find("{"):]) else "", ("unit", self.unit_path, 0)))
         self.pieces.append(Piece(text2 + "\n", ("repo", rel, L.line_of(src, loc.start))))
 
     def _emit_trait(self, rel, name):
@@ -345,7 +368,7 @@ class Extractor:
         body = src[loc.body_open + 1:loc.body_close]
         mbody = masked[loc.body_open + 1:loc.body_close]
         # split fields at top-level commas
-        commas = L.split_top_commas(mbody)
+        commas = _split_field_commas(mbody)
         segs = []
         a = 0
         for c in commas + [len(mbody)]:
@@ -621,6 +644,9 @@ class Extractor:
             nl = sig[arrow + 2:tend].count("\n")
             sig = sig[:arrow] + "-> (" + fs.ret + ": " + " ".join(rty.split()) + ")" + "\n" * nl + " " + sig[tend:]
         # --- body rewrites (newline-preserving)
+        if getattr(fs, "sig_only", False):
+            body = "{ unimplemented!() }" + "\n" * body.count("\n")
+            rec["body_dropped"] = True
         body = self._rewrite_body(body, rec, fs)
         sig_nl = sig.count("\n")
         # --- insertion points in body
